@@ -333,7 +333,16 @@ def check_history(run, ops, shortcut):
             # factory shortcuts on a generic solver
             if shortcut is not None:
                 name = "refsolver"
-                env.factory.add_generic_solver(name, REFSOLVER + ["--card", str(CARD)], list(PYSMT_LOGICS))
+                # the solver declares (and its process accepts) only a few SMT-LIB logics: whatever logic is detected
+                # for the formula, the process must be started in one of these
+                from pysmt.logics import QF_AUFBV, QF_UFBV as _QF_UFBV, QF_AUFBVLIRA
+                from vf.refsem import all_symbols as _alls
+                restricted = len(ops) % 2 == 1 and not any("Sort" in repr(t_) for (_, t_) in _alls(shortcut[1]))
+                declared = [_QF_UFBV, QF_AUFBVLIRA] if restricted else list(PYSMT_LOGICS)
+                extra = ["--logics", ",".join(str(l) for l in declared)] if restricted else []
+                if restricted:
+                    run.cls("shortcut:solver-declares-few-logics")
+                env.factory.add_generic_solver(name, REFSOLVER + extra + ["--card", str(CARD)], declared)
                 f = pys.build(env, shortcut[1])
                 b = pys.decode(f)
                 try:
